@@ -631,6 +631,11 @@ class Interp:
 
     def s_FunctionDef(self, st, fr):
         fv = self.make_function(st, fr)
+        # decorators whose effect is observable and modelled are applied (functools.cache)
+        for d in reversed(st.decorator_list):
+            name = _dotted(d.func if isinstance(d, ast.Call) else d)
+            if name.split(".")[-1] in ("cache", "lru_cache"):
+                fv = self.call(self.eval(d, fr), [fv], {})
         self.store_name(st.name, fv, fr)
 
     def make_function(self, st, fr, owner=None):
@@ -1440,6 +1445,8 @@ def _plain(v):
         return all(_plain(x) for x in v)
     if isinstance(v, dict):
         return all(_plain(k) and _plain(x) for k, x in v.items())
+    if type(v).__name__ == "dict_keys":
+        return all(_plain(k) for k in v)
     return False
 
 
